@@ -292,6 +292,50 @@ func TestProp(t *testing.T) {
 			}
 		})
 	}
+	// a caller's bufio.Reader that has been read before: the file starts 4040..4096 bytes into the 4 KiB buffer (readers that
+	// take an io.Reader adopt such a reader); ftyp boxes of 8..28 bytes, and every small well-formed file
+	if complete && os.Getenv("VERIF_SKIP_ENUM") == "" {
+		idx := 0
+		try := func(entry string, data []byte, pre int, origin string) bool {
+			idx++
+			if idx%rec.Env.Shards != rec.Env.Shard {
+				return true
+			}
+			in := append(bytes.Repeat([]byte{' '}, pre), data...)
+			c := Case{Req: worker.Req{Entry: entry, Input: in, K: 3, Reader: worker.ReaderSpec{Pre: pre}}, Origin: origin}
+			if f := eval(c); f != nil {
+				if pbt.Report(t, rec, chk.Name, c, f) {
+					complete = false
+					return false
+				}
+			}
+			return true
+		}
+		for p := 0; p <= 20 && complete; p++ {
+			ft := make([]byte, 8+p)
+			binary.BigEndian.PutUint32(ft, uint32(8+p))
+			copy(ft[4:], "ftyp")
+			copy(ft[8:], "crx \x00\x00\x00\x01crx isomavif")
+			rest := append(ft, []byte("\x00\x00\x00\x10free\x01\x02\x03\x04\x05\x06\x07\x08\x00\x00\x00\x48mdat")...)
+			rest = append(rest, make([]byte, 64)...)
+			for g := 0; g <= 4; g++ {
+				if !try("BMFF", rest, 4096-8-p-g, fmt.Sprintf("caller-bufio-offset:ftyp-payload-%d-gap-%d", p, g)) {
+					break
+				}
+			}
+		}
+		step := rec.Env.Pick(4, 1)
+		for _, sf := range small {
+			if !complete || len(sf.data) > 3000 {
+				continue
+			}
+			for _, entry := range []string{"BMFF", "ScanJPEG", "ScanTiffHeader", "ParseXmp", "ItScan"} {
+				for pre := 4040; pre <= 4096 && complete; pre += step {
+					try(entry, sf.data, pre, "caller-bufio-offset:"+sf.name)
+				}
+			}
+		}
+	}
 	// XMP: start tags nested 1000 .. 4,000,000 deep (the reader descends one call frame per level)
 	if complete && os.Getenv("VERIF_SKIP_ENUM") == "" && rec.Env.Shard == 0 {
 		for _, depth := range []int{1000, 100000, 4000000} {
